@@ -25,7 +25,7 @@ META = {
     "level_note": "The energy relation H_cm(pt) == H_loc(local(pt)) + O(r^(N+1)) is the composition of C07 (Taylor identity), "
                   "C08 (H_new == H_old o Phi) and C18 (substitution == coordinate change): a derived lemma, no new obligation. "
                   "Not decided: the r^(N+1) decay itself (truncation), domain of convergence, Brent's convergence (A4). L3 and "
-                  "triangular points raise NotImplementedError by design.",
+                  "triangular points raise NotImplementedError by design. Shared obligations: pipeline registry (C07, points that print alike), Lie-series length for N <= 14 (C08).",
     "technique": "recorded-callee chain contracts + z3 path VCs with a loop invariant + exact case analysis",
 }
 
